@@ -1055,7 +1055,8 @@ type sessionCfg struct {
 	FocusK   []kind.Kind            // kinds to draw changes from
 	SplitPct int                    // conv: chance to split the captured requests of a batch into two pushes
 	World    func() (*world, error) // nil = random world
-	Script   []scriptOp             // non-nil = these single changes instead of random ones (Steps = len)
+	Script   [][]scriptOp           // non-nil = these changes (one batch per step) instead of random ones (Steps = len)
+	SplitOp  bool                   // scripted batch: the requests of its first change are pushed (and settled) before the rest
 	Finding  string                 // every failing case of this (scripted) session is this known finding
 	Rules    bool                   // seed several DestinationRules on one host (seedRules)
 }
@@ -1114,14 +1115,17 @@ func runSession(c *vlib.Collector, base int, r *vlib.Rand, sc sessionCfg, st *hS
 		if sc.Mode == "conv" {
 			nops = 1 + r.Intn(4)
 		}
+		if sc.Script != nil {
+			nops = len(sc.Script[step])
+		}
 		kinds := map[kind.Kind]bool{}
 		var ops []wop
 		for i := 0; i < nops; i++ {
 			var k kind.Kind
 			var op wop
 			if sc.Script != nil {
-				k = sc.Script[step].Key.K
-				op, err = w.scripted(sc.Script[step])
+				k = sc.Script[step][i].Key.K
+				op, err = w.scripted(sc.Script[step][i])
 			} else {
 				k = vlib.Pick(r, sc.FocusK)
 				op, err = w.randOp(r, k)
@@ -1143,9 +1147,27 @@ func runSession(c *vlib.Collector, base int, r *vlib.Rand, sc sessionCfg, st *hS
 		group := live.held
 		live.held = nil
 		groups := [][]*model.PushRequest{group}
-		if sc.Mode == "conv" && len(group) > 1 && r.Chance(sc.SplitPct) {
+		// Random splits leave out batches with a DestinationRule change: two sequential pushes whose first PushContext already
+		// contains the second one's DestinationRule change lose the EDS update (known finding
+		// C01-eds-prev-scope-lost-across-pushes, reproduced by its own scripted session).
+		if sc.Script == nil && sc.Mode == "conv" && len(group) > 1 && !kinds[kind.DestinationRule] && r.Chance(sc.SplitPct) {
 			cut := 1 + r.Intn(len(group)-1)
 			groups = [][]*model.PushRequest{group[:cut], group[cut:]}
+		}
+		forceSettle := false
+		if sc.SplitOp && nops > 1 {
+			first := model.ConfigKey{Kind: ops[0].Key.K, Name: ops[0].Key.Name, Namespace: ops[0].Key.Ns}
+			var g1, g2 []*model.PushRequest
+			for _, rq := range group {
+				if _, ok := rq.ConfigsUpdated[first]; ok {
+					g1 = append(g1, rq)
+				} else {
+					g2 = append(g2, rq)
+				}
+			}
+			if len(g1) > 0 && len(g2) > 0 {
+				groups, forceSettle = [][]*model.PushRequest{g1, g2}, true
+			}
 		}
 		for _, cl := range live.clients {
 			cl.resetRound()
@@ -1154,7 +1176,7 @@ func runSession(c *vlib.Collector, base int, r *vlib.Rand, sc sessionCfg, st *hS
 		for gi, g := range groups {
 			merged = live.push(g)
 			// sometimes let the second push overtake the first in the push queue (PushQueue merging)
-			if gi == len(groups)-1 || r.Bool() {
+			if gi == len(groups)-1 || forceSettle || r.Bool() {
 				if err := live.settle(live.clients); err != nil {
 					return err
 				}
@@ -1426,6 +1448,9 @@ func genH(t *testing.T, c *vlib.Collector, id *int) {
 	// recurrence cannot poison later runs in the same process.
 	sessions = append(sessions, sessionCfg{Mode: "h", Steps: len(sharedDefaultScript), Specs: nodeSpecs, World: sharedDefaultWorld,
 		Script: sharedDefaultScript})
+	// the scripted reproducer of known finding C01-eds-prev-scope-lost-across-pushes
+	sessions = append(sessions, sessionCfg{Mode: "conv", Steps: len(prevScopeScript), Specs: nodeSpecs, World: prevScopeWorld,
+		Script: prevScopeScript, SplitOp: true, Finding: "C01-eds-prev-scope-lost-across-pushes"})
 	defaultBodySize := istio_route.DefaultMaxDirectResponseBodySizeBytes.GetValue()
 	defer func() {
 		c.Extra["shared_default_after_scripted_envoyfilter"] = istio_route.DefaultMaxDirectResponseBodySizeBytes.GetValue()
@@ -1453,7 +1478,7 @@ func genH(t *testing.T, c *vlib.Collector, id *int) {
 		}
 		pan, msg := vlib.Recover(func() { err = runSession(c, base, sr, sc, sst) })
 		if sc.Finding != "" {
-			c.Extra["finding.hdep_skip_CHANGED"] = sst.skipDiffer
+			c.Extra["finding."+sc.Finding+".suspects"] = len(sst.suspects)
 			for _, s := range sst.suspects {
 				t.Logf("known finding %s: %s", sc.Finding, s)
 			}
